@@ -220,6 +220,13 @@ type Target struct {
 	// enclosing block, up to the end of that block (Rest = falling out of the block; "" when the
 	// block is the function body and must end in a return).
 	After bool
+	// Extensions of records.go: declared non-local lvalues (Go source text -> Gallina variable),
+	// type assertions (asserted type -> {is-function, value-function}), the nil test of
+	// interface values, and "only the value of this composite-literal key".
+	LVals   map[string]string
+	Asserts map[string][2]string
+	ErrNil  string
+	KeyVal  string
 }
 
 type fnctx struct {
@@ -227,6 +234,14 @@ type fnctx struct {
 	tg  *Target
 	fd  *ast.FuncDecl
 	tmp int
+	// records.go
+	derefd   map[string]string   // pointer variable -> variable bound to its content in the current statement
+	override map[ast.Expr]string // expressions already translated (under their dereference bindings)
+	noExt    map[ast.Stmt]bool   // statements handed back to the standard translation
+}
+
+func newFnctx(t *translator, tg *Target, fd *ast.FuncDecl) *fnctx {
+	return &fnctx{t: t, tg: tg, fd: fd, derefd: map[string]string{}, override: map[ast.Expr]string{}, noExt: map[ast.Stmt]bool{}}
 }
 
 func (c *fnctx) hint(e ast.Node) (string, bool) {
@@ -291,6 +306,9 @@ func (c *fnctx) typeOf(e ast.Expr) types.Type {
 
 func (c *fnctx) expr(e ast.Expr) string {
 	if s, ok := c.hint(e); ok {
+		return s
+	}
+	if s, ok := c.exprExt(e); ok {
 		return s
 	}
 	info := c.t.pkg.TypesInfo
@@ -473,6 +491,9 @@ func (c *fnctx) stmts(list []ast.Stmt, rest string) string {
 			return tail()
 		}
 		return pre + " " + tail()
+	}
+	if out, ok := c.stmtExt(list, rest); ok {
+		return out
 	}
 	switch x := s.(type) {
 	case *ast.ReturnStmt:
@@ -778,9 +799,13 @@ func (t *translator) emitFunc(tg *Target, w *bytes.Buffer) {
 		}
 		return true
 	})
-	c := &fnctx{t: t, tg: tg, fd: fd}
+	c := newFnctx(t, tg, fd)
 	var body string
-	if sel != nil {
+	var kv *ast.KeyValueExpr
+	if tg.KeyVal != "" {
+		kv = t.keyValExpr(fd, tg.KeyVal, tg.Func)
+		body = c.ret(c.expr(kv.Value))
+	} else if sel != nil {
 		body = c.stmts(selList, tg.Rest)
 		if tg.Pre != "" {
 			body = tg.Pre + "\n  " + body
@@ -802,6 +827,23 @@ func (t *translator) emitFunc(tg *Target, w *bytes.Buffer) {
 		if tg.Pre != "" {
 			fmt.Fprintf(w, "   prefix: %s\n", tg.Pre)
 		}
+	}
+	if kv != nil {
+		fmt.Fprintf(w, "   only the value of the composite-literal entry at line %d: %s\n", t.fset.Position(kv.Pos()).Line, t.src(kv))
+	}
+	for _, k := range sortedKeys(tg.LVals) {
+		fmt.Fprintf(w, "   lvalue: %s  =>  %s\n", k, tg.LVals[k])
+	}
+	akeys := []string{}
+	for k := range tg.Asserts {
+		akeys = append(akeys, k)
+	}
+	sort.Strings(akeys)
+	for _, k := range akeys {
+		fmt.Fprintf(w, "   assertion: x.(%s)  =>  ok = %s x, value = %s x\n", k, tg.Asserts[k][0], tg.Asserts[k][1])
+	}
+	if tg.ErrNil != "" {
+		fmt.Fprintf(w, "   nil test of interface values: %s\n", tg.ErrNil)
 	}
 	keys := []string{}
 	for k := range tg.Hints {
@@ -1116,6 +1158,19 @@ func main() {
 		var w bytes.Buffer
 		fmt.Fprintf(&w, header, *repo)
 		fmt.Fprintf(&w, "From Verif Require Import Gen.GenConsts.\n")
+		for _, imp := range targetImports[f] {
+			fmt.Fprintf(&w, "From Verif Require Import %s.\n", imp)
+		}
+		for _, rs := range sortedKeys(recordStructs) {
+			if recordStructs[rs] == f {
+				root.emitRecord(rs, &w)
+			}
+		}
+		for _, vr := range varRecords {
+			if recordStructs[vr[1]] == f {
+				root.emitVarRecord(vr[0], vr[1], &w)
+			}
+		}
 		for _, tg := range byFile[f] {
 			tr := root
 			if tg.Pkg != "" && tg.Pkg != "tchannel" {
